@@ -481,13 +481,21 @@ def check_deep(run, fam, depth, ops_subset=None):
                      {"family": fam, "pattern": "deep", "n": depth, "operation": "construct"},
                      "constructing a %s chain of depth %d hits the recursion limit" % (fam, depth))
             return
+        nodes = dag_size(f)
         for name, op in operations(env).items():
             if (ops_subset and name not in ops_subset) or name in FAMILY_SKIP.get(fam, ()):
                 continue
             run.case(key=(fam, "deep", name, depth), nontrivial=True)
             run.cls("deep:" + name)
             try:
-                op(f)
+                # (the same abort budget as for the sharing families: work that is quadratic in the depth would
+                #  otherwise only show as a run that never ends)
+                measure(lambda: op(f), K_BUDGET * nodes + 50000)
+            except Budget:
+                run.fail({"subcheck": "work:budget", "operation": name, "family": fam, "pattern": "chain"},
+                         {"family": fam, "pattern": "deep", "n": depth, "operation": name},
+                         "%s on a %s chain of depth %d (%d distinct nodes) needs more than %d x nodes calls" % (
+                             name, fam, depth, nodes, K_BUDGET))
             except RecursionError:
                 run.fail({"subcheck": "work:recursion", "operation": name, "family": fam, "pattern": "chain"},
                          {"family": fam, "pattern": "deep", "n": depth, "operation": name},
